@@ -256,6 +256,6 @@ def bottomUpPairs (hier : List Nat) : List (Nat × Nat) :=
     `_child_to_parent`. -/
 def inferLevels (parentOf : Nat → Nat → Option Nat) (hier : List Nat) (cell : Cell) :
     Except InferErr Cell :=
-  (bottomUpPairs hier).foldlM (fun c (cl, pl) => inferStep parentOf c cl pl) cell
+  (bottomUpPairs hier).foldlM (fun c p => inferStep parentOf c p.1 p.2) cell
 
 end CTM.Election
